@@ -26,7 +26,7 @@ def constraintAgree (c : Bytes) (r : Rec) (v : Vuln) : Bool :=
     when the package has a source, the source package (name and kind). -/
 def nameJoins (r : Rec) (v : Vuln) : Bool :=
   match r.pkg.src with
-  | none => false
+  | none => !r.pkg.name.isEmpty && (r.pkg.name == v.pkgName && r.pkg.kind == v.pkgKind)
   | some (sn, sk) =>
     !r.pkg.name.isEmpty &&
       ((r.pkg.name == v.pkgName && r.pkg.kind == v.pkgKind) ||
@@ -37,20 +37,6 @@ def versionOk (vf inRange : Bool) (r : Rec) (v : Vuln) : Bool :=
 
 /-! ### the constraint loop -/
 
-/-- What the loop body computes for one constraint not yet seen. -/
-def hereOut (c : Bytes) (r : Rec) (v : Vuln) : QOut :=
-  match findCase c JoinQuery.switchCases with
-  | none => .err
-  | some q =>
-    match q.field with
-    | none => (match rowCol q.column v with
-      | some x => .ok (!x.isEmpty)
-      | none => .err)
-    | some f => (match recField f r, rowCol q.column v with
-      | .val a, some b => .ok (a == b)
-      | .nilDeref, _ => .panic
-      | _, _ => .err)
-
 theorem constraintsHold_cons (r : Rec) (v : Vuln) (c : Bytes) (cs seen : List Bytes) :
     constraintsHold r v (c :: cs) seen =
       if seen.contains c then constraintsHold r v cs seen else
@@ -59,24 +45,63 @@ theorem constraintsHold_cons (r : Rec) (v : Vuln) (c : Bytes) (cs seen : List By
         | .ok t' => .ok (t && t')
         | o => o)
       | o => o := by
-  simp only [constraintsHold, hereOut]
-  split
-  · rfl
-  · cases h : findCase c JoinQuery.switchCases with
-    | none => rfl
-    | some q =>
-      simp only
-      cases hf : q.field with
-      | none =>
-        simp only
-        cases rowCol q.column v <;> rfl
-      | some f =>
-        simp only
-        cases recField f r <;> cases rowCol q.column v <;> rfl
+  rfl
+
+/-- A guarded constraint compares a field of the guarded part of the record. -/
+def guardOk (g : Bytes × Bytes) : Bool :=
+  match findCase g.1 JoinQuery.switchCases with
+  | none => false
+  | some q =>
+    match q.field with
+    | none => false
+    | some f =>
+      match decodeRec f with
+      | some (.dist _) => g.2 == [68, 105, 115, 116, 114, 105, 98, 117, 116, 105, 111, 110]
+      | some (.repo _) => g.2 == [82, 101, 112, 111, 115, 105, 116, 111, 114, 121]
+      | _ => false
+
+theorem guards_ok : JoinQuery.nilGuards.all guardOk = true := by decide
+
+theorem guardedNil_agree_false (c : Bytes) (r : Rec) (v : Vuln) (h : guardedNil c r = true) :
+    constraintAgree c r v = false := by
+  simp only [guardedNil, List.any_eq_true, Bool.and_eq_true, Bool.or_eq_true, beq_iff_eq, Option.isNone_iff_eq_none] at h
+  obtain ⟨g, hg, hc, hnil⟩ := h
+  have hok := List.all_eq_true.1 guards_ok g hg
+  subst hc
+  unfold guardOk at hok
+  unfold constraintAgree
+  cases hq : findCase g.1 JoinQuery.switchCases with
+  | none => rfl
+  | some q =>
+    simp only [hq] at hok ⊢
+    cases hf : q.field with
+    | none => simp [hf] at hok
+    | some f =>
+      simp only [hf] at hok ⊢
+      cases hd : decodeRec f with
+      | none => simp [hd] at hok
+      | some rf =>
+        cases rf with
+        | dist df =>
+          simp only [hd, beq_iff_eq] at hok
+          rcases hnil with ⟨_, hn⟩ | ⟨hp', _⟩
+          · simp [recField, hd, RField.get, hn]
+          · rw [hok] at hp'; cases hp'
+        | repo rpf =>
+          simp only [hd, beq_iff_eq] at hok
+          rcases hnil with ⟨hp', _⟩ | ⟨_, hn⟩
+          · rw [hok] at hp'; cases hp'
+          · simp [recField, hd, RField.get, hn]
+        | _ => simp [hd] at hok
 
 theorem hereOut_true_iff (c : Bytes) (r : Rec) (v : Vuln) :
     hereOut c r v = .ok true ↔ constraintAgree c r v = true := by
+  by_cases hgn : guardedNil c r = true
+  · have := guardedNil_agree_false c r v hgn
+    simp [hereOut, hgn, this]
+  have hgn' : guardedNil c r = false := by simpa using hgn
   unfold hereOut constraintAgree
+  simp only [hgn', Bool.false_eq_true, if_false]
   cases findCase c JoinQuery.switchCases with
   | none => simp
   | some q =>
@@ -176,6 +201,41 @@ theorem srcClause_eq (r : Rec) (v : Vuln) (sn sk : Bytes) (h : r.pkg.src = some 
   have c2 : colField [112, 97, 99, 107, 97, 103, 101, 95, 107, 105, 110, 100] = some .pkgKind := by decide
   simp [JoinQuery.srcClause, clauseHolds, recField, rowCol, h1, h2, c1, c2, RField.get, VField.get, h]
 
+theorem srcNilGuard_true : JoinQuery.srcNilGuard = true := by decide
+
+/-- The tail of `getQuery` after the package clause has been decided. -/
+theorem tail_true_iff (pk : Bool) (cs : List Bytes) (vf ir : Bool) (r : Rec) (v : Vuln) :
+    (match constraintsHold r v cs [] with
+      | .ok t => QOut.ok (pk && t && (if vf then (v.versionKind == some r.pkg.normKind && ir) else true))
+      | o => o) = .ok true ↔
+      pk = true ∧ (∀ c ∈ cs, constraintAgree c r v = true) ∧ versionOk vf ir r v = true := by
+  have hcs := constraintsHold_true_iff r v cs []
+  simp only [List.contains_nil, Bool.false_eq_true, false_or] at hcs
+  cases hc : constraintsHold r v cs [] with
+  | err =>
+    have : ¬ (∀ c ∈ cs, constraintAgree c r v = true) := fun h => by
+      have := hcs.2 h; rw [hc] at this; cases this
+    simp [this]
+  | panic =>
+    have : ¬ (∀ c ∈ cs, constraintAgree c r v = true) := fun h => by
+      have := hcs.2 h; rw [hc] at this; cases this
+    simp [this]
+  | ok t =>
+    cases t with
+    | false =>
+      have : ¬ (∀ c ∈ cs, constraintAgree c r v = true) := fun h => by
+        have := hcs.2 h; rw [hc] at this; cases this
+      simp [this]
+    | true =>
+      have hall := hcs.1 hc
+      simp only [QOut.ok.injEq, Bool.and_true, versionOk]
+      constructor
+      · intro h
+        simp only [Bool.and_eq_true] at h
+        exact ⟨h.1, hall, h.2⟩
+      · rintro ⟨h1, _, h3⟩
+        simp [h1, h3]
+
 /-- The WHERE clause of `buildGetQuery` holds for a row exactly when the
     package clause, every listed constraint and (if requested) the version
     filter hold. -/
@@ -183,61 +243,29 @@ theorem getQuery_true_iff (cs : List Bytes) (vf ir : Bool) (r : Rec) (v : Vuln) 
     getQuery cs vf ir r v = .ok true ↔
       nameJoins r v = true ∧ (∀ c ∈ cs, constraintAgree c r v = true) ∧ versionOk vf ir r v = true := by
   unfold getQuery
-  simp only [recField, decode_nameGuard, decode_srcGuard, RField.get, pkgClause_eq]
-  cases hsrc : r.pkg.src with
-  | none =>
-    simp only [nameJoins, hsrc]
-    cases hn : r.pkg.name with
-    | nil => simp
-    | cons a as => simp
-  | some p =>
-    obtain ⟨sn, sk⟩ := p
-    simp only [nameJoins, hsrc, srcClause_eq r v sn sk hsrc]
-    cases hn : r.pkg.name with
-    | nil => simp
-    | cons a as =>
-      simp only
-      have hcs := constraintsHold_true_iff r v cs []
-      simp only [List.contains_nil, Bool.false_eq_true, false_or] at hcs
+  simp only [recField, decode_nameGuard, decode_srcGuard, RField.get, pkgClause_eq, srcNilGuard_true, if_true]
+  cases hn : r.pkg.name with
+  | nil =>
+    cases hsrc : r.pkg.src with
+    | none => simp [nameJoins, hsrc, hn]
+    | some p => obtain ⟨sn, sk⟩ := p; simp [nameJoins, hsrc, hn]
+  | cons a as =>
+    simp only
+    cases hsrc : r.pkg.src with
+    | none =>
+      simp only [nameJoins, hsrc, hn]
+      refine (tail_true_iff _ cs vf ir r v).trans ?_
+      simp
+    | some p =>
+      obtain ⟨sn, sk⟩ := p
+      simp only [nameJoins, hsrc, hn, srcClause_eq r v sn sk hsrc]
       by_cases hg : sn.isEmpty = true
       · simp only [hg, if_true]
-        cases hc : constraintsHold r v cs [] with
-        | err =>
-          have : ¬ (∀ c ∈ cs, constraintAgree c r v = true) := fun h => by
-            have := hcs.2 h; rw [hc] at this; cases this
-          simp [this]
-        | panic =>
-          have : ¬ (∀ c ∈ cs, constraintAgree c r v = true) := fun h => by
-            have := hcs.2 h; rw [hc] at this; cases this
-          simp [this]
-        | ok t =>
-          cases t with
-          | false =>
-            have : ¬ (∀ c ∈ cs, constraintAgree c r v = true) := fun h => by
-              have := hcs.2 h; rw [hc] at this; cases this
-            simp [this]
-          | true =>
-            have hall := hcs.1 hc
-            simp [versionOk] <;> (intros; exact hall _ ‹_›)
+        refine (tail_true_iff _ cs vf ir r v).trans ?_
+        simp
       · have hg' : sn.isEmpty = false := by simpa using hg
         simp only [hg', Bool.false_eq_true, if_false]
-        cases hc : constraintsHold r v cs [] with
-        | err =>
-          have : ¬ (∀ c ∈ cs, constraintAgree c r v = true) := fun h => by
-            have := hcs.2 h; rw [hc] at this; cases this
-          simp [this]
-        | panic =>
-          have : ¬ (∀ c ∈ cs, constraintAgree c r v = true) := fun h => by
-            have := hcs.2 h; rw [hc] at this; cases this
-          simp [this]
-        | ok t =>
-          cases t with
-          | false =>
-            have : ¬ (∀ c ∈ cs, constraintAgree c r v = true) := fun h => by
-              have := hcs.2 h; rw [hc] at this; cases this
-            simp [this]
-          | true =>
-            have hall := hcs.1 hc
-            simp [versionOk] <;> (intros; exact hall _ ‹_›)
+        refine (tail_true_iff _ cs vf ir r v).trans ?_
+        simp
 
 end ClairModel.Join
